@@ -90,6 +90,9 @@ fn variants(rng: &mut Rng, k: u32) -> Vec<(&'static str, String)> {
         ("rw-open", format!("echo w{k} 1<>{}", rng.pick(&["f1", "e1"]))),
         ("dup", format!("echo w{k} 2>&1 >f2; echo x{k} >&2 2>>f2")),
         ("status", format!("rc {}; echo \"?=$?\"", rng.pick(&[0u8, 1, 7]))),
+        // the descriptor table itself (a leak on either side shows at once)
+        ("fd-table", "fdl".to_string()),
+        ("fd-table", "exec 5>|f2 7<e1; fdl; ( fdl ); exec 5>&- 7<&-; fdl".to_string()),
         ("creat-in-missing-dir", format!("echo w{k} >nodir/f; echo \"?=$?\"")),
         ("file-as-dir", format!("echo w{k} >e1/f; echo \"?=$?\"; cat e1/f; echo \"?=$?\"")),
         ("cd-to-file", "cd e1; echo \"?=$?\"".to_string()),
